@@ -119,7 +119,7 @@ func cmdSelftestFS(args []string) {
 			refDir := dir
 			// faults the real disk can produce: per include-related call of the reference run
 			for ci, e := range refLog {
-				if e.Op != "stat" && e.Op != "readfile" {
+				if e.Op != "stat" && !isReadOp(e.Op) {
 					continue
 				}
 				relp, err := filepath.Rel(refDir, filepath.Clean(e.Path))
@@ -146,7 +146,7 @@ func cmdSelftestFS(args []string) {
 				if e.Op == "stat" {
 					vs = append(vs, variant{"eisdir", simrt.FEisdir, 0, 0, func(ap string) { must(os.Remove(ap)); must(os.Mkdir(ap, 0o755)) }})
 				}
-				if e.Op == "readfile" && len(content) > 1 {
+				if isReadOp(e.Op) && len(content) > 1 {
 					k := r.n(len(content))
 					vs = append(vs, variant{"torn", simrt.FTorn, k, 0, func(ap string) { must(os.WriteFile(ap, content[:k], 0o644)) }})
 					fl := append([]byte(nil), content...)
@@ -161,7 +161,7 @@ func cmdSelftestFS(args []string) {
 					// A real-disk state change is persistent while a planned fault hits one call;
 					// they coincide when the path is touched by exactly one stat and one read.
 					// A read-time enoent (file vanished between stat and read) is only reachable in simulation.
-					if e.Op == "readfile" && v.name == "enoent" && !isRoot {
+					if isReadOp(e.Op) && v.name == "enoent" && !isRoot {
 						continue
 					}
 					if e.Op == "stat" && v.name == "empty" {
